@@ -22,7 +22,7 @@ from concurrent.futures import ProcessPoolExecutor, as_completed
 
 VERIF = os.path.dirname(os.path.dirname(os.path.abspath(__file__)))
 REPO = os.environ.get('VERIF_REPO', '/repo')
-NCPU = min(16, os.cpu_count() or 1)
+NCPU = int(os.environ.get('VERIF_WORKERS') or min(8, os.cpu_count() or 1))  # measured: this VM gains nothing beyond ~8 workers
 
 EXIT_HELD, EXIT_VIOLATION, EXIT_INCONCLUSIVE = 0, 1, 2
 
